@@ -146,14 +146,54 @@ void prop(DP &dp, const ref::Bytes &sched, Ctx &ctx) {
 				ctx.desc << "  thread " << t << " owns " << tr->periphs[t].id << " (bit " << (int) tr->periphs[t].bit << "), last value " << last[t] << "\n";
 				pls.push_back(std::move(pl));
 			}
+			// two more kinds of thread: a "driver" that owns the speed of the train (speed / emergency stop commands) and a
+			// "flusher" that empties the send buffer at generated moments, i.e. also in the middle of the others' calls: the
+			// command's own acknowledgement can then be on its way before the call returns. A high-level drive command marks
+			// the train "acknowledgement pending" and the receiver thread records the acknowledgement; if the two are not
+			// ordered like their messages, the train stays "pending" although its last command was acknowledged.
+			bool any_drive = false;
+			if (dp.chance(200)) {
+				std::unique_ptr<Plan> pl(new Plan);
+				pl->done = &done2;
+				pl->pauses = dp.bytes((size_t) dp.range(1, 6));
+				int reps = dp.range(1, 6);
+				ctx.desc << "  driver thread:";
+				for (int i = 0; i < reps; i++) {
+					std::string tid = tr->id, ob = out;
+					api::Call c;
+					if (dp.chance(110)) {
+						c.text = "bidib_emergency_stop_train(" + tid + ", " + ob + ")";
+						c.run = [tid, ob] { bidib_emergency_stop_train(tid.c_str(), ob.c_str()); };
+					} else {
+						int sp = dp.range(-14, 14);
+						c.text = "bidib_set_train_speed(" + tid + ", " + std::to_string(sp) + ", " + ob + ")";
+						c.run = [tid, sp, ob] { bidib_set_train_speed(tid.c_str(), sp, ob.c_str()); };
+					}
+					ctx.desc << " " << c.text << ";";
+					pl->calls.push_back(c);
+				}
+				ctx.desc << "\n";
+				pls.push_back(std::move(pl));
+				any_drive = true;
+			}
+			if (dp.chance(170)) {
+				std::unique_ptr<Plan> pl(new Plan);
+				pl->done = &done2;
+				pl->pauses = dp.bytes((size_t) dp.range(1, 6));
+				int reps = dp.range(2, 10);
+				for (int i = 0; i < reps; i++) { api::Call c; c.text = "bidib_flush()"; c.run = [] { bidib_flush(); }; pl->calls.push_back(c); }
+				ctx.desc << "  flusher thread: " << reps << " x bidib_flush()\n";
+				pls.push_back(std::move(pl));
+			}
+			const size_t nth = pls.size();
 			n.bus.silent = false;        // drive acknowledgements arrive, so that budget-deferred drive messages are released
 			contracts::enable(true);
-			std::vector<pthread_t> th2(k);
-			for (size_t t = 0; t < k; t++) vf_pthread_create(&th2[t], nullptr, thread_main, pls[t].get());
+			std::vector<pthread_t> th2(nth);
+			for (size_t t = 0; t < nth; t++) vf_pthread_create(&th2[t], nullptr, thread_main, pls[t].get());
 			int guard2 = 0;
-			while (__atomic_load_n(&done2, __ATOMIC_RELAXED) < (int) k && guard2++ < 400000) vf_usleep(free_run ? 3000 : 1000);
-			if (__atomic_load_n(&done2, __ATOMIC_RELAXED) < (int) k) ctx.fail("HANG: owner threads did not finish");
-			for (size_t t = 0; t < k; t++) vf_pthread_join(th2[t], nullptr);
+			while (__atomic_load_n(&done2, __ATOMIC_RELAXED) < (int) nth && guard2++ < 400000) vf_usleep(free_run ? 3000 : 1000);
+			if (__atomic_load_n(&done2, __ATOMIC_RELAXED) < (int) nth) ctx.fail("HANG: owner threads did not finish");
+			for (size_t t = 0; t < nth; t++) vf_pthread_join(th2[t], nullptr);
 			contracts::enable(false);
 			for (int r = 0; r < 12; r++) { bidib_flush(); n.s.settle(2); }
 			n.bus.silent = true;
@@ -165,6 +205,18 @@ void prop(DP &dp, const ref::Bytes &sched, Ctx &ctx) {
 				if (!q.available || q.state != last[t])
 					ctx.fail("LOST-UPDATE: function " + tr->periphs[t].id + " of train " + tr->id + " was last set to " + std::to_string(last[t]) + " by its only writer, but the tracked state says " +
 					         std::to_string(q.state) + " after " + std::to_string(k) + " threads switched different functions of the train concurrently");
+			}
+			// every drive message has been written and acknowledged by now (the bus answers each with "accepted"): the last word
+			// on the train is the acknowledgement of its last command
+			{
+				size_t drives = 0;
+				for (auto &r : n.bus.tx) if (r.m.type == M::CS_DRIVE && r.m.data.size() == 9 && r.m.data[0] == tr->addrl && r.m.data[1] == tr->addrh) drives++;
+				t_bidib_train_state_query q = bidib_get_train_state(tr->id.c_str());
+				if (q.known && drives > 0 && q.data.ack != BIDIB_DCC_ACK_ACCEPTED_SOON)
+					ctx.fail("LOST-UPDATE: all " + std::to_string(drives) + " drive messages for train " + tr->id + " were acknowledged with 'accepted' and the bus is quiet, but the tracked acknowledgement is " +
+					         std::to_string((int) q.data.ack) + (q.data.ack == BIDIB_DCC_ACK_PENDING ? " (pending)" : "") + ": a command marked the train pending after its own acknowledgement had been recorded");
+				bidib_free_train_state_query(q);
+				if (any_drive) ctx.tag("owners-case-with-driver");
 			}
 			// the last drive message of every function group on the wire carries the final values of its functions
 			int nodei = n.bus.node_of_board(out);
@@ -216,7 +268,7 @@ void prop(DP &dp, const ref::Bytes &sched, Ctx &ctx) {
 	}
 	auto concerns = [&](uint8_t type) {
 		switch (focus) {
-		case 0: return type == M::BM_SPEED || type == M::BM_DYN_STATE || type == M::CS_DRIVE_ACK || type == M::BM_ADDRESS;
+		case 0: return type == M::BM_SPEED || type == M::BM_DYN_STATE || type == M::CS_DRIVE_ACK || type == M::BM_ADDRESS || type == M::CS_DRIVE_MANUAL;
 		case 1: return type == M::BM_OCC || type == M::BM_FREE || type == M::BM_ADDRESS || type == M::BM_CURRENT || type == M::BM_CONFIDENCE;
 		case 2: case 3: return type == M::ACCESSORY_STATE || type == M::CS_ACCESSORY_ACK || type == M::CS_ACCESSORY_MANUAL;
 		case 4: return type == M::LC_STAT || type == M::LC_WAIT;
